@@ -174,7 +174,7 @@ class CGenerator:
         #
         s = n.name if no_type else self._generate_decl(n)
         if n.bitsize:
-            s += " : " + self.visit(n.bitsize)
+            s += " : " + self._visit_expr(n.bitsize)
         if n.init:
             s += " = " + self._visit_expr(n.init)
         return s
@@ -226,7 +226,7 @@ class CGenerator:
             return "{indent}{name} = {value},\n".format(
                 indent=self._make_indent(),
                 name=n.name,
-                value=self.visit(n.value),
+                value=self._visit_expr(n.value),
             )
 
     def visit_FuncDef(self, n: c_ast.FuncDef) -> str:
@@ -344,7 +344,7 @@ class CGenerator:
         return s
 
     def visit_Case(self, n: c_ast.Case) -> str:
-        s = "case " + self.visit(n.expr) + ":\n"
+        s = "case " + self._visit_expr(n.expr) + ":\n"
         for stmt in n.stmts:
             s += self._generate_stmt(stmt, add_indent=True)
         return s
@@ -522,7 +522,7 @@ class CGenerator:
                             if modifier.dim_quals:
                                 nstr += " ".join(modifier.dim_quals) + " "
                             if modifier.dim is not None:
-                                nstr += self.visit(modifier.dim)
+                                nstr += self._visit_expr(modifier.dim)
                             nstr += "]"
                         case c_ast.FuncDecl():
                             if i != 0 and isinstance(modifiers[i - 1], c_ast.PtrDecl):
